@@ -398,7 +398,11 @@ def oracle(case, obs):
             if tname in prev['index'] and v[0] in ('L', 'T') and all(x[0] == 'S' for x in v[1]) and len(v[1]) != n:
                 bad('whole-series|wrong-length-accepted', 'op %d: a sequence of %d values was accepted for a span of %d' % (i, len(v[1]), n))
         # ---- (4) strict
-        if prev['strict'] and op[0] == 'setattr' and op[1] != 'strict' and op[1] not in prev['index'] and op[1] not in prev['reg']:
+        if prev['strict'] and op[0] == 'setattr' and op[1] == 'values' and out == 'AttributeError':
+            # `values` replacement is one of the public operations and `values` an existing name of the class: it must keep working
+            bad('strict|values-setter-blocked', 'op %d: strict=True and obj.values = v raised AttributeError (%s)' % (i, stp.get('msg', '')[:60]))
+        if (prev['strict'] and op[0] == 'setattr' and op[1] not in ('strict', 'values') and op[1] not in prev['index']
+                and op[1] not in prev['reg']):
             if out not in ('AttributeError', 'NotImplementedError'):
                 bad('strict|new-attribute-not-blocked', 'op %d: strict=True but obj.%s = v gave %s' % (i, op[1], out))
             if st['adict'] != prev['adict'] or st['reg'] != prev['reg']:
